@@ -55,10 +55,15 @@ def main():
         suite_ok = "FAILED" not in o and "test result: ok. 186 passed" in o
         meta["ran"].append({"cmd": "cargo test --offline (with the change)", "passed": suite_ok, "tail": o[-400:]})
         # without the change
-        sh("git stash -- src Cargo.toml", wt)
+        # NB: git stash is shared between worktrees; reverse-apply the diff instead
+        rc, diff = sh("git diff -- src Cargo.toml", wt)
+        tmp_patch = os.path.join(out, "_tmp.patch")
+        open(tmp_patch, "w").write(diff)
+        sh(f"git apply -R {tmp_patch}", wt)
         ok_without, o2 = run_demo()
-        sh("git stash pop", wt)
-        meta["ran"].append({"cmd": "demo without the change (git stash)", "passed": ok_without, "tail": o2[-400:]})
+        sh(f"git apply {tmp_patch}", wt)
+        os.remove(tmp_patch)
+        meta["ran"].append({"cmd": "demo without the change (git apply -R)", "passed": ok_without, "tail": o2[-400:]})
         meta["confirmed"] = (not ok_with) and ok_without and suite_ok
         print(f"demo with change passes={ok_with} (want False); without={ok_without} (want True); suite ok={suite_ok}")
         if not meta["confirmed"]:
